@@ -12,9 +12,13 @@ def main():
     st = subprocess.run(["git", "-C", "/repo", "status", "--porcelain", "--untracked-files=no"], capture_output=True, text=True).stdout.strip()
     if st:
         print("refusing: /repo has local modifications:\n" + st); return 2
-    r = subprocess.run(["git", "-C", "/repo", "apply", "--3way", patch], capture_output=True, text=True)
+    r = subprocess.run(["git", "-C", "/repo", "apply", patch], capture_output=True, text=True)
     if r.returncode != 0:
-        r = subprocess.run(["git", "-C", "/repo", "apply", patch], capture_output=True, text=True)
+        r = subprocess.run(["git", "-C", "/repo", "apply", "--3way", patch], capture_output=True, text=True)
+        if r.returncode != 0:
+            # a failed three-way merge leaves conflict markers and an unmerged index behind: restore the tree
+            subprocess.run(["git", "-C", "/repo", "checkout", "HEAD", "--", "."], capture_output=True)
+            subprocess.run(["git", "-C", "/repo", "reset", "-q"], capture_output=True)
     if r.returncode != 0:
         print("patch does not apply:", r.stderr[:500]); return 2
     res = {}
